@@ -20,6 +20,7 @@ RULE = (
     "wrapper chain of length >=1 or a refusal; distinct by (schema, state path, arguments)."
 )
 ASSUMPTIONS = [
+    "hosts whose reference automaton has 600 or more match states are not judged (slow, not wrong: see C06)",
     "schemas are well-founded: every node type has a finite minimal instance built from generatable nodes (DESIGN.md §3.7)",
     "no completeness is claimed for create_and_fill (the statement allows 'or nothing')",
 ]
@@ -60,6 +61,9 @@ def maze_spec(R: Draw) -> dict:
     return {"nodes": {k: nodes[k] for k in order}, "marks": {}}
 
 
+LARGE_AUTOMATON = 600  # reference match states of the host; above this the case is inconclusive
+
+
 def fill_maze_spec(R: Draw) -> dict:
     """Backtracking maze for fill_before: a host whose expression is a random tree of choices and sequences over a few
     leaf types, so that an alternative listed first can start with generatable nodes and still dead-end for the content
@@ -69,7 +73,10 @@ def fill_maze_spec(R: Draw) -> dict:
     names = ["x", "y", "z", "u"][: R.int(3, 4)]
     if R.bool(0.3):
         names.append("req")
-    ast = exprs.random_ast(R, names, R.int(3, 7), ["?", "*", "+", "{1,2}"])
+    for _ in range(4):
+        ast = exprs.random_ast(R, names, R.int(3, 7), ["?", "*", "+", "{1,2}"])
+        if exprs.expansion(exprs.render(ast)) <= 60:
+            break
     nodes: dict = {"doc": {"content": "host+"}, "host": {"content": exprs.render(ast)}}
     for n in names:
         nodes[n] = {"attrs": {"k": {}}} if n == "req" else {}
@@ -238,6 +245,11 @@ def check(case: dict, ctx: Ctx) -> None:
     after_types = [c["t"] for c in after_p]
     sk = case["schema"] if isinstance(case["schema"], str) else case["schema"]
     nev = 0
+    if len(rx.states(rs.content[host], limit=LARGE_AUTOMATON)) >= LARGE_AUTOMATON:
+        # counted groups nested in counted groups unfold to thousands of match states; fill_before and find_wrapping
+        # walk them with list scans and take minutes without being wrong - a time limit cannot tell slow from stuck
+        ctx.label("skipped:automaton-too-large")
+        return
     for path, state in _state_paths(rs.content[host]):
         m = ht.content_match
         for a in path:
